@@ -50,6 +50,19 @@ class Obj:
 MISSING = object()
 
 
+class Raises:
+    "marker value: the folded definition raised instead of returning"
+
+    def __init__(self, text):
+        self.text = text
+
+    def __repr__(self):
+        return f'<raises {self.text}>'
+
+    def __bool__(self):
+        return False
+
+
 class Interp:
     def __init__(self, globals_: dict, where: str = ''):
         self.g = dict(globals_)
@@ -88,6 +101,16 @@ class Interp:
 
     def fail(self, what):
         return Unsupported(f'{self.where}: {what}')
+
+    def safe(self, fn, args, kwargs=None):
+        """call(), but a `raise` in the folded code (or an error from applying it to
+        the mocks) comes back as a Raises marker, so the caller's comparison fails."""
+        try:
+            return self.call(fn, args, kwargs)
+        except Raised as e:
+            return Raises(e.text)
+        except (TypeError, KeyError, AttributeError, IndexError, ValueError) as e:
+            return Raises(f'{type(e).__name__}: {e}')
 
     def call(self, fn: ast.FunctionDef, args: list, kwargs: dict | None = None):
         a = fn.args
